@@ -24,7 +24,7 @@ RULE = ("sequences of 1-3 calls on ONE Grid re-using the SAME argument objects (
         "the dataset) is taken before and after every call; every result is compared with the same call made first "
         "on freshly built objects. Non-trivial = a sequence of at least two calls or a call that raises.")
 
-GRIDS = ["simple", "faces", "vertical"]
+GRIDS = ["simple", "faces", "vertical", "comodo"]
 
 
 def nontrivial(case, obs):
@@ -39,10 +39,11 @@ OPS = {
     "simple": ["diff_x", "interp_xy", "min_x", "max_y", "cumsum_x", "cumsum_xy", "derivative_x", "integrate_xy",
                "average_x", "cumint_x", "get_metric", "interp_like", "pad", "ufunc", "interp_mw", "ctor",
                "bad_boundary", "bad_axis", "diff_outer", "min_outer", "max_outer", "interp_outer", "cumsum_outer",
-               "min_inner", "interp_inner"],
+               "min_inner", "interp_inner", "integrate_left", "average_u", "get_metric_left", "integrate_u"],
     "faces": ["vec_interp_x", "vec_diff_xy", "vec_pad", "scalar_diff_x", "scalar_interp_xy", "ctor_faces",
               "bad_boundary"],
     "vertical": ["transform_linear", "transform_cons", "transform_anon", "transform_arr", "diff_z"],
+    "comodo": ["autoparse", "autoparse_diff", "autoparse_interp"],
 }
 
 
@@ -50,7 +51,7 @@ def generate(rng, tier):
     n = 260 if tier == "quick" else 2500
     cases = []
     for i in range(n):
-        g = GRIDS[i % 3]
+        g = GRIDS[i % 4]
         k = rng.choice([1, 2, 2, 3, 3])
         cases.append({"grid": g, "ops": [rng.choice(OPS[g]) for _ in range(k)], "periodic": rng.random() < 0.5})
     # every operation at least once after itself (the commonest way a consumed argument shows up)
@@ -112,13 +113,18 @@ def world(case):
         W["coords"] = {"X": {"center": "xc", "left": "xl", "outer": "xo"}, "Y": {"center": "yc", "left": "yl", "inner": "yi"}}
         W["ctor_boundary"] = {"X": "fill"} if not case["periodic"] else {"X": "periodic", "Y": "extend"}
         W["ctor_fill"] = {"X": 2.0}
-        W["metrics"] = {("X",): ["dx", "dxl"], ("Y",): ["dy"], ("X", "Y"): ["area"]}
+        # half of the worlds have no metric for the pair of axes and none at the left positions, so that
+        # products and interpolated metrics are used
+        W["metrics"] = {("X",): ["dx"], ("Y",): ["dy"]} if case["periodic"] else \
+            {("X",): ["dx", "dxl"], ("Y",): ["dy"], ("X", "Y"): ["area"]}
         W["ds"] = ds
         g = Grid(ds, coords=W["coords"], periodic=case["periodic"], boundary=W["ctor_boundary"],
                  fill_value=W["ctor_fill"], metrics=W["metrics"], autoparse_metadata=False)
         da = xr.DataArray(np.arange(24.).reshape(2, 3, 4) ** 1.5, dims=["t", "yc", "xc"], name="temp",
                           attrs={"long_name": "T"}).assign_coords(xc=ds.xc, yc=ds.yc, t=ds.t)
         W["da"] = da
+        W["dal"] = xr.DataArray((np.arange(12.).reshape(3, 4) * 3) % 7 + 1, dims=["yl", "xl"], name="vort")
+        W["dau"] = xr.DataArray((np.arange(12.).reshape(3, 4) * 5) % 11 + 1, dims=["yc", "xl"], name="u")
         W["dao"] = xr.DataArray(np.arange(15.).reshape(3, 5) ** 1.1, dims=["yc", "xo"], name="flux")
         W["dai"] = xr.DataArray((np.arange(12.).reshape(3, 4) * 7) % 5, dims=["yc", "xc"], name="w")
         # half of the worlds use mappings that do not name every axis (the Grid's defaults fill in)
@@ -146,6 +152,18 @@ def world(case):
         W["fill"] = {"X": 0.5, "Y": 2.0}
         W["bw"] = {"X": (1, 1), "Y": (1, 0)}
         W["axes"] = ["X", "Y"]
+    elif kind == "comodo":
+        # metadata with the shift spelled as text / integer-like values, as written by some tools
+        shift = rng_choice(case, ["-0.5", -0.5, np.float32(-0.5)])
+        ds = xr.Dataset(coords={"xc": ("xc", np.arange(4.) + .5, {"axis": "X"}),
+                                "xg": ("xg", np.arange(4.), {"axis": "X", "c_grid_axis_shift": shift}),
+                                "yc": ("yc", np.arange(3.) + .5, {"axis": "Y"}),
+                                "yg": ("yg", np.arange(3.), {"axis": "Y", "c_grid_axis_shift": shift})},
+                        attrs={"title": "c"})
+        W["ds"] = ds
+        # the world's own Grid is parsed from a copy: the shared dataset is first read by the calls
+        g = Grid(ds.copy(deep=True), periodic=False)
+        W["da"] = xr.DataArray(np.arange(12.).reshape(3, 4) ** 1.5, dims=["yc", "xc"], name="temp")
     else:
         ds = xr.Dataset(coords={"zc": ("zc", np.arange(4.) + .5), "zo": ("zo", np.arange(5.)), "x": ("x", [0., 1.])})
         W["coords"] = {"Z": {"center": "zc", "outer": "zo"}}
@@ -159,6 +177,14 @@ def world(case):
         W["target_arr"] = xr.DataArray(np.array([1.5, 3.0]), dims=["lev"], coords={"lev": [1.5, 3.0]})
     W["grid"] = g
     return W
+
+
+def rng_choice(case, options):
+    return options[sum(map(ord, "".join(case["ops"]))) % len(options)]
+
+
+def xr_identity(g, da):
+    return da * 1.0
 
 
 def call(op, W):
@@ -208,6 +234,15 @@ def call(op, W):
         return g.diff(W["da"], "X", boundary={"X": "reflect"}, fill_value=f)
     if op == "bad_axis":
         return g.interp(W["da"], ["X", "Q"], boundary=b)
+    # metric queries at positions where nothing (or not everything) is registered
+    if op == "integrate_left":
+        return g.integrate(W["dal"], W["axes"])
+    if op == "integrate_u":
+        return g.integrate(W["dau"], W["axes"])
+    if op == "average_u":
+        return g.average(W["dau"], ["Y", "X"])
+    if op == "get_metric_left":
+        return g.get_metric(W["dal"], W["mw"])
     if op == "diff_outer":
         return g.diff(W["dao"], "X", boundary=b, fill_value=f)
     # shifts that need no padding: the function is handed the caller's own data
@@ -228,6 +263,13 @@ def call(op, W):
     if op == "ctor_faces":
         g2 = Grid(W["ds"], coords=W["coords"], face_connections=W["fc"], periodic=False, autoparse_metadata=False)
         return g2.interp(W["da"], "X")
+    if op == "autoparse":
+        g2 = Grid(W["ds"], periodic=False)
+        return xr_identity(g2, W["da"])
+    if op == "autoparse_diff":
+        return Grid(W["ds"], periodic=False).diff(W["da"], "X", boundary="extend")
+    if op == "autoparse_interp":
+        return g.interp(W["da"], ["X", "Y"], boundary="fill")
     if op == "transform_linear":
         return g.transform(W["da"], "Z", W["levels"], target_data=W["td"])
     if op == "transform_cons":
